@@ -855,8 +855,15 @@ impl Gen {
             }
             let p = **self.rng.pick(&cands);
             let outs: Vec<&String> = p.pool_info.asset_denoms.iter().filter(|d| **d != cur).collect();
-            // rarely a degenerate hop that asks for the denom it offers
-            let out = if self.rng.chance(1, 40) { cur.clone() } else { (*self.rng.pick(&outs)).clone() };
+            // rarely a degenerate hop that asks for the denom it offers; sometimes head back to the
+            // starting denom (cycles)
+            let out = if self.rng.chance(1, 40) {
+                cur.clone()
+            } else if !ops.is_empty() && outs.contains(&&start) && self.rng.chance(1, 2) {
+                start.clone()
+            } else {
+                (*self.rng.pick(&outs)).clone()
+            };
             used.push(p.pool_info.pool_identifier.clone());
             ops.push(SwapOperation::MantraSwap {
                 token_in_denom: cur.clone(),
